@@ -206,7 +206,7 @@ def check_resolve(ctx: Ctx) -> None:
     rflow = prog.flow(res)
     appends = [(n, c) for n, c in rflow.all_calls() if isinstance(c.func, ast.Attribute) and c.func.attr == "append"
                and any(d.kind == "assign" and isinstance(d.value, ast.List) for d in rflow.reaching(n, root_name(c.func.value) or ""))]
-    ctx.require("R-RESOLVE-V4", "result.append sites in resolve", len(appends), 3)
+    ctx.require("R-RESOLVE-V4", "result.append sites in resolve", len(appends), 1)
     sorts = [n for n, c in rflow.all_calls() if isinstance(c.func, ast.Attribute) and c.func.attr == "sort"] + [
         n for n in rflow.cfg.returns() if isinstance(n.ast.value, ast.Call) and isinstance(n.ast.value.func, ast.Name)
         and n.ast.value.func.id == "sorted"]
@@ -287,7 +287,7 @@ def check_gitignore(ctx: Ctx) -> None:
                 sl = prog.slice(fi, recv, n)
                 if any("_get_gitignore" in nm or "load_gitignore" in nm for nm in sl.callees()):
                     sites.append((fi, n, c))
-    ctx.require("R-GITIGNORE", "gitignore matcher sites", len(sites), 2)
+    ctx.require("R-GITIGNORE", "gitignore matcher sites", len(sites), 1)
     for fi, n, c in sites:
         flow = prog.flow(fi)
         tag = "files" if fi is walk else "directories"
@@ -338,7 +338,7 @@ def check_gitignore(ctx: Ctx) -> None:
         for c in walk_no_nested(f.node):
             if isinstance(c, ast.Call) and isinstance(c.func, ast.Attribute) and c.func.attr == "from_lines":
                 facs.append((f, c))
-    ctx.require("R-GITIGNORE", "PathSpec.from_lines call sites", len(facs), 3)
+    ctx.require("R-GITIGNORE", "PathSpec.from_lines call sites", len(facs), 1)
     for f, c in facs:
         a0 = c.args[0] if c.args else None
         ok = isinstance(a0, ast.Constant) and a0.value in ("gitignore", "gitwildmatch")
